@@ -336,7 +336,14 @@ pub fn shape_lattice(fam: Fam, ft: Ft, per_decade: usize) -> Vec<Cell> {
     let mut v = vec![];
     let span = |lo: f64, hi: f64| -> Vec<f64> {
         let n = (((hi / lo).log10()) * per_decade as f64).ceil() as usize;
-        (0..=n).map(|i| lo * (hi / lo).powf(i as f64 / n.max(1) as f64)).collect()
+        let mut xs: Vec<f64> = (0..=n).map(|i| lo * (hi / lo).powf(i as f64 / n.max(1) as f64)).collect();
+        // "nice" values: where a hand-written fast path or special case would sit (k = 2, 1/2, 1/3, ...)
+        for &x in &[0.25, 1.0 / 3.0, 0.5, 2.0 / 3.0, 0.75, 1.0, 1.5, 2.0, 2.5, 3.0, 4.0, 5.0, 6.0, 8.0, 10.0, 12.0, 16.0, 20.0, 30.0, 50.0, 100.0] {
+            if x >= lo && x <= hi {
+                xs.push(x);
+            }
+        }
+        xs
     };
     match fam {
         Fam::Gamma => for k in span(slo, shi.min(300.0)) { v.push(c(fam, ft, &[k, 1.0])); },
